@@ -137,6 +137,10 @@ def build_and_check(acc, fn, n, m, be, hkind, square=False, values='all', gen_mo
         else:
             if hkind in ('H0', 'H1'):
                 c, ops = arith.host(hkind, k)
+            elif hkind == 'SATW':
+                c, ops = arith.saturated_host(k, wide=True)
+            elif hkind == 'DEC':
+                c, ops = arith.decoy_host(k)
             else:  # folded host
                 from vmc.props.c07 import folded_host
 
@@ -315,7 +319,7 @@ def plan(tier):
 
 def describe(tier):
     return {
-        'rule': 'small: every width pair (n,m), n+m<=W x 7 multiplier entry points (add_mul, Karatsuba with efficient sum, alter, Dadda, '
+        'rule': 'SATW host for n+m<=4 / squares n<=4: a host that already holds every two-operand gate over every ordered pair of operand bits and n-ary decoys containing such a pair, and a DEC host with the decoys only; small: every width pair (n,m), n+m<=W x 7 multiplier entry points (add_mul, Karatsuba with efficient sum, alter, Dadda, '
         'Wallace, 2^k-1, plain Karatsuba) x endianness x hosts (H0 inputs, H1 non-input operands) + generate_mul for the 6 modes, ALL '
         'operand values; for n+m<=7 also two calls reusing the same operand list objects and one with the same list as both operands; square: add_square/add_square_pow2_m1/generate_square likewise; rec: Karatsuba-recursion widths x short '
         'second operand, ALL operand values (2^(n+m) rows in slices of 2^18); full/fullsq: recursion inside recursion, the squarer split, and the other five entry points at widths 24..40 (column heights >= 25) '
@@ -361,7 +365,7 @@ def run_task(task, acc):
         n, m = task['n'], task['m']
         for fn in MUL_FNS:
             for be in (False, True):
-                for h in ('H0', 'H1'):
+                for h in ('H0', 'H1') + (('SATW', 'DEC') if n + m <= 4 else ()):
                     build_and_check(acc, fn, n, m, be, h)
         for mode in MODES:
             for be in (False, True):
@@ -371,7 +375,7 @@ def run_task(task, acc):
         n = task['n']
         for fn in SQ_FNS:
             for be in (False, True):
-                for h in ('H0', 'H1'):
+                for h in ('H0', 'H1') + (('SATW', 'DEC') if n <= 4 else ()):
                     build_and_check(acc, fn, n, n, be, h, square=True)
         for mode in ('DEFAULT', 'POW2_M1'):
             for be in (False, True):
